@@ -52,7 +52,9 @@ pub fn respelled_keys(k: &PublicKey) -> Vec<Value> {
     let own = kj["keyval"]["public"].as_str().unwrap_or("").to_string();
     materials.push(own.clone());
     for m in materials {
-        for algs in [None, Some(json!(["sha256", "sha512"])), Some(json!(["sha512"]))] {
+        // (the hash-algorithm list is part of the description as it is written: other orders, repeats, other
+        // names and the empty list are other descriptions - with ids of their own)
+        for algs in [None, Some(json!(["sha256", "sha512"])), Some(json!(["sha512"])), Some(json!(["sha512", "sha256"])), Some(json!(["sha256", "sha256"])), Some(json!(["sha512", "sha256", "sha512"])), Some(json!(["zz", "sha256", "aa"])), Some(json!([]))] {
             let mut v = kj.clone();
             v["keyval"]["public"] = Value::String(m.clone());
             match algs {
